@@ -372,7 +372,8 @@ def _tag_check(sc, v):
         raise HarnessError("Ngap38413Types did not complete: " + r.error)
     v.add_tlc([r])
     absent = [p for p in r.prints if "ABSENT" in p]
-    v.extra["types_compared_with_TS38413"] = max(r.distinct - 1, 0) - len(absent)
+    fam = [int(p.strip().strip('"').split()[1]) for p in r.prints if "FAMILY" in p]
+    v.extra["types_compared_with_TS38413"] = max(r.distinct - 1, 0) - len(absent) + (fam[0] if fam else 0)
     v.evaluations += v.extra["types_compared_with_TS38413"]
     for rj in r.rejects:
         v.violation("tag:" + rj["id"], rj["why"], {"type": rj["id"], "why": rj["why"]})
